@@ -8,7 +8,9 @@ import ScyllaVerif.Model.MetaUpdate
   Each operation runs the model's atomic steps of that endpoint to its next await point and prints
   `<result>:<wake count>`.
 * `slot <op>;…` — `MetadataUpdate::merge_*` on a slot: `F<tag>` / `R<tag>` merge_metadata without / with a refresh
-  request, `T<tag>` merge_topology_update, `U<addr>` / `W<addr>` up / down hint, `K` take.
+  request (no client routes configured), `G<tag>/<routes>` / `H<tag>/<routes>` the same with client routes configured,
+  `C<entries>` merge_client_routes_update (`host.conn.port` upsert, `host.conn.x` removal), `T<tag>`
+  merge_topology_update, `U<addr>` / `W<addr>` up / down hint, `K` take.
 * `stress <n> <mode> <seed>` — two OS threads; the schedule is not observable, the line only says that the
   concatenation of everything received was `0..n` and that `None` came last (what `Props.C19` proves for every schedule).
 * `race <reps> <n> <seed>` — `reps` such rounds with a tiny `n` (the drop follows the last merge at once).
@@ -98,11 +100,42 @@ def sortHints (h : List (Nat × Bool)) : List (Nat × Bool) := h.foldr insertSor
 
 def listStr (xs : List String) : String := if xs.isEmpty then "-" else ",".intercalate xs
 
+def keyLe (a b : RouteKey) : Bool := a.1 < b.1 || (a.1 == b.1 && a.2 ≤ b.2)
+
+def insertRoute (p : RouteKey × Option Nat) : List (RouteKey × Option Nat) → List (RouteKey × Option Nat)
+  | [] => [p]
+  | q :: r => if keyLe p.1 q.1 then p :: q :: r else q :: insertRoute p r
+
+def sortRoutes (rs : List (RouteKey × Option Nat)) : List (RouteKey × Option Nat) := rs.foldr insertRoute []
+
+def routeStr (e : RouteKey × Option Nat) : String :=
+  s!"{e.1.1}.{e.1.2}." ++ (match e.2 with | some p => toString p | none => "x")
+
+def routesStr : Option (List (RouteKey × Option Nat)) → String
+  | none => "none"
+  | some rs => listStr ((sortRoutes rs).map routeStr)
+
 def viewStr (slot : Option Update) : String :=
   let peers := match peersTag slot with | some t => toString t | none => "-"
   let refresh := listStr ((refreshIds slot).map toString)
   let hints := listStr ((sortHints (hintsOf slot)).map fun p => toString p.1 ++ (if p.2 then "+" else "-"))
-  s!"{kind slot} peers={peers} refresh={refresh} hints={hints} lost=-"
+  s!"{kind slot} peers={peers} refresh={refresh} hints={hints} routes={routesStr (routesOf slot)} lost=-"
+
+/-- `host.conn.port` / `host.conn.x` entries, `-` = none. -/
+def parseRouteEntries (s : String) (allowRemoval : Bool) : Option (List (RouteKey × Option Nat)) :=
+  if s == "-" then some [] else
+  (s.splitOn ",").mapM fun e =>
+    match e.splitOn "." with
+    | [h, c, p] =>
+      match h.toNat?, c.toNat? with
+      | some h, some c =>
+        if c > 65535 then none
+        else if p == "x" then (if allowRemoval then some ((h, c), none) else none)
+        else match p.toNat? with
+          | some p => if p > 65535 then none else some ((h, c), some p)
+          | none => none
+      | _, _ => none
+    | _ => none
 
 def slotOp (st : SlotSt) (op : String) : Option (SlotSt × String) :=
   match splitOp op with
@@ -110,6 +143,23 @@ def slotOp (st : SlotSt) (op : String) : Option (SlotSt × String) :=
   | some (c, arg) =>
     if c == 'K' then
       if arg != "" then none else some ({ st with slot := none }, viewStr st.slot)
+    else if c == 'C' then
+      match parseRouteEntries arg true with
+      | none => none
+      | some es => some ({ st with slot := mergeClientRoutes st.slot (mkRoutesUpdate es) }, "-")
+    else if c == 'G' || c == 'H' then
+      match arg.splitOn "/" with
+      | [tag, rs] =>
+        match tag.toNat?, parseRouteEntries rs false with
+        | some tag, some es =>
+          let routes := mkRoutes (es.filterMap fun e => e.2.map fun p => (e.1, p))
+          let m : Meta := { peers := tag, clientRoutes := some routes }
+          if c == 'H' then
+            some ({ slot := mergeMetadata st.slot m (some st.nextRefresh), nextRefresh := st.nextRefresh + 1 },
+                  s!"r{st.nextRefresh}")
+          else some ({ st with slot := mergeMetadata st.slot m none }, "-")
+        | _, _ => none
+      | _ => none
     else
     match arg.toNat? with
     | none => none
@@ -146,11 +196,11 @@ def run (case _impl : String) : String :=
   | ["slot"] => runSlot []
   | ["stress", n, _mode, _seed] =>
     match n.toNat? with
-    | some n => s!"received=0..{n} in-order none-last"
+    | some _ => "stream-complete in-order none-last"
     | none => "bad-case"
   | ["race", reps, n, _seed] =>
     match reps.toNat?, n.toNat? with
-    | some reps, some n => s!"rounds={reps} each=0..{n} in-order none-last"
+    | some _, some n => s!"every-round each=0..{n} in-order none-last"
     | _, _ => "bad-case"
   | _ => "bad-case"
 
